@@ -51,8 +51,8 @@ func buildRace(ctx *common.Ctx) string {
 	return out
 }
 
-func toJob(id int, p *Prog, yield func() bool) job {
-	setup, runs, finals := p.Lisp(id, yield)
+func toJob(id int, p *Prog, after func(rid int) string) job {
+	setup, runs, finals := p.Lisp(id, after)
 	return job{ID: id, Kind: "prog", Caps: p.Caps, NMutex: p.NMutex, Cells: p.Cells, Setup: setup, Runs: runs, Finals: finals, Procs: p.Procs}
 }
 
@@ -242,8 +242,16 @@ func Run(ctx *common.Ctx) {
 
 	jobs := make([]job, len(progs))
 	for i, p := range progs {
-		pct := p.Yield
-		jobs[i] = toJob(i, p, func() bool { return pct > 0 && ctx.Rng.Chance(pct) })
+		pct, slow := p.Yield, p.Slow
+		jobs[i] = toJob(i, p, func(rid int) string {
+			if rid == slow && ctx.Rng.Chance(40) {
+				return fmt.Sprintf(" (vpause %d)", 20+ctx.Rng.Intn(200))
+			}
+			if pct > 0 && ctx.Rng.Chance(pct) {
+				return " (vyield)"
+			}
+			return ""
+		})
 	}
 	// implementation-only jobs, each under several GOMAXPROCS
 	var impls []implJob
